@@ -182,6 +182,21 @@ def input_ops():
         env.feed_input(b"abcdefghijklmn")
         inp.send(0)
 
+    def big_paste_send0(env, inp):
+        # more than one full 1 024-byte read is pending at once
+        data = (b"abcdefgh" * 200)[:1500]
+        os.write(env.master, data)
+        import array
+        buf = array.array("i", [0])
+        deadline = time.time() + 2.0
+        while time.time() < deadline:
+            fcntl.ioctl(env.slave, termios.FIONREAD, buf)
+            if buf[0] >= len(data):
+                break
+            select.select([], [], [], 0.0005)
+        inp.send(0)
+        inp.send(0)
+
     def send_timeout(env, inp):
         inp.send(0.002)
 
@@ -201,7 +216,7 @@ def input_ops():
         inp.threadsafe_event_trigger(Ev)()
         inp.send(0)
 
-    return [("send0", send0), ("key_send0", key_send0), ("esc_send0", esc_send0), ("paste_send0", paste_send0), ("send_timeout", send_timeout),
+    return [("send0", send0), ("key_send0", key_send0), ("esc_send0", esc_send0), ("paste_send0", paste_send0), ("big_paste_send0", big_paste_send0), ("send_timeout", send_timeout),
             ("event_trigger", event_trigger), ("sched_trigger", sched_trigger), ("unget", unget), ("ts_trigger", ts_trigger)]
 
 
@@ -486,7 +501,7 @@ def shard(args):
     cfg = dict(configs_for(kind, thorough)[cfg_idx], context=name)
     ops = ops_for(kind)
     bodies = [[]] + [[o] for o in ops]
-    two = [[a, b] for a in ops for b in ops]
+    two = [[a, b] for a in ops for b in ops if not a[0].startswith("big_") and not b[0].startswith("big_")]
     bodies += two if (thorough or cfg_idx in (0, 9)) else two[:: 3]
     async_cfg = thorough or cfg_idx in (0, 7, 8, 9)
     reusable = "Fullscreen" not in name  # blessed's fullscreen() context manager is one-shot by construction
@@ -515,7 +530,13 @@ def shard(args):
         if (len(body) == 1 or (thorough and len(body) == 2)) and async_cfg:
             n, fails, outcome = execute(env, cfg, factory, kind, body, ("count",), cdir)
             record(body, ("count",), fails, outcome)
-            for k in range(1, (n or 0) + 1):
+            points = list(range(1, (n or 0) + 1))
+            if len(points) > 400:
+                # a body with thousands of points (a multi-kilobyte paste: one generator step per byte): all of the first 60,
+                # then every 97th, and the last 12
+                points = points[:60] + points[60:-12:97] + points[-12:]
+                acc.add("async_points_sampled_bodies")
+            for k in points:
                 for how in (("kbd", "signal") if cfg["prev_handler"] in ("default", "custom") else ("kbd",)):
                     _, fails, outcome = execute(env, cfg, factory, kind, body, ("async", k, how), cdir)
                     record(body, ("async", k, how), fails, outcome)
